@@ -54,7 +54,7 @@ var impls = []*impl{
 		},
 		public: func(sk any) any { return sk.(*mldsa44.PrivateKey).Public() },
 		sign: func(sk any, msg, ctx []byte, randomized bool) ([]byte, error) {
-			sig := make([]byte, mldsa44.SignatureSize)
+			sig := dirty(mldsa44.SignatureSize)
 			err := mldsa44.SignTo(sk.(*mldsa44.PrivateKey), msg, ctx, randomized, sig)
 			return sig, err
 		},
@@ -80,7 +80,7 @@ var impls = []*impl{
 		},
 		public: func(sk any) any { return sk.(*mldsa65.PrivateKey).Public() },
 		sign: func(sk any, msg, ctx []byte, randomized bool) ([]byte, error) {
-			sig := make([]byte, mldsa65.SignatureSize)
+			sig := dirty(mldsa65.SignatureSize)
 			err := mldsa65.SignTo(sk.(*mldsa65.PrivateKey), msg, ctx, randomized, sig)
 			return sig, err
 		},
@@ -106,7 +106,7 @@ var impls = []*impl{
 		},
 		public: func(sk any) any { return sk.(*mldsa87.PrivateKey).Public() },
 		sign: func(sk any, msg, ctx []byte, randomized bool) ([]byte, error) {
-			sig := make([]byte, mldsa87.SignatureSize)
+			sig := dirty(mldsa87.SignatureSize)
 			err := mldsa87.SignTo(sk.(*mldsa87.PrivateKey), msg, ctx, randomized, sig)
 			return sig, err
 		},
@@ -132,7 +132,7 @@ var impls = []*impl{
 		},
 		public: func(sk any) any { return sk.(*mode2.PrivateKey).Public() },
 		sign: func(sk any, msg, ctx []byte, randomized bool) ([]byte, error) {
-			sig := make([]byte, mode2.SignatureSize)
+			sig := dirty(mode2.SignatureSize)
 			mode2.SignTo(sk.(*mode2.PrivateKey), msg, sig)
 			return sig, nil
 		},
@@ -158,7 +158,7 @@ var impls = []*impl{
 		},
 		public: func(sk any) any { return sk.(*mode3.PrivateKey).Public() },
 		sign: func(sk any, msg, ctx []byte, randomized bool) ([]byte, error) {
-			sig := make([]byte, mode3.SignatureSize)
+			sig := dirty(mode3.SignatureSize)
 			mode3.SignTo(sk.(*mode3.PrivateKey), msg, sig)
 			return sig, nil
 		},
@@ -184,7 +184,7 @@ var impls = []*impl{
 		},
 		public: func(sk any) any { return sk.(*mode5.PrivateKey).Public() },
 		sign: func(sk any, msg, ctx []byte, randomized bool) ([]byte, error) {
-			sig := make([]byte, mode5.SignatureSize)
+			sig := dirty(mode5.SignatureSize)
 			mode5.SignTo(sk.(*mode5.PrivateKey), msg, sig)
 			return sig, nil
 		},
@@ -198,4 +198,14 @@ func init() {
 	for _, im := range impls {
 		im.scheme = schemes.ByName(im.p.Name)
 	}
+}
+
+// dirty returns a buffer that is not zero: a signature must be written in
+// full whatever the caller's buffer held (hint padding, unused high bits).
+func dirty(n int) []byte {
+	b := make([]byte, n)
+	for i := range b {
+		b[i] = 0xA5 ^ byte(i*7)
+	}
+	return b
 }
